@@ -45,7 +45,7 @@ theorem csem_comm (a b : Op) (h : ∀ q, q ∈ a.loc → q ∉ b.loc) (σ : Nat 
   · rw [csem_notin (σ := csem b σ) ha]
     exact csem_congr (fun q hq => csem_notin (fun hqa => h q hqa hq)) (csem_notin ha)
 
-theorem idxOf_map_inj {τ : Nat → Nat} (hτ : ∀ x y, τ x = τ y → x = y) (l : List Nat) (x : Nat) :
+theorem idxOf_map_inj' {τ : Nat → Nat} (hτ : ∀ x y, τ x = τ y → x = y) (l : List Nat) (x : Nat) :
     (l.map τ).idxOf (τ x) = l.idxOf x := by
   induction l with
   | nil => simp
@@ -78,7 +78,7 @@ theorem csem_relab (τ : Nat → Nat) (hinv : ∀ x, τ (τ x) = x) (o : Op) (σ
     intro q _
     simp [hinv]
   have hidx : (o.loc.map τ).idxOf w = o.loc.idxOf (τ w) := by
-    have := idxOf_map_inj hinj o.loc (τ w)
+    have := idxOf_map_inj' hinj o.loc (τ w)
     rwa [hinv] at this
   simp only [csem, relab, hmem, hmap, hidx]
 
